@@ -84,8 +84,10 @@ func (vc *VC) guardKindsOnce() []guardKind {
 					}
 				}()
 				for _, l := range vc.guardLocs(li, self) {
-					if l.Space == 'E' {
-						continue // slice contents: kinds are too coarse (all slices of the element type)
+					if l.Space == 'E' || l.Ref == "*" {
+						// slice contents and "every map stored in this map": the kind is too coarse for a
+						// discipline check (a detached bucket is owned by the sweeper); still havocked on acquire
+						continue
 					}
 					vc.gkinds = append(vc.gkinds, guardKind{l.Space, l.TK, l.Lo, l.Hi, li})
 				}
